@@ -41,6 +41,8 @@ TABLE = [
     ("str-index(abc, 1)", "error"), ("quote(a)", "\"a\""), ("unquote(\"a\")", "a"), ("to-upper-case(\"aébc\")", "\"AéBC\""), ("to-lower-case(ABÉ)", "abÉ"),
     ("str-length(\"\")", "0"), ("str-slice(\"abc\", 2)", "\"bc\""), ("str-slice(abc, 2, 2)", "b"), ("str-index(\"abc\", \"\")", "1"),
     ("unquote(a)", "a"), ("quote(\"a\")", "\"a\""), ("str-insert(\"abc\", \"X\", 2)", "\"aXbc\""), ("length(1px)", "1"), ("map.get((a: 1))", "error"),
+    ("string.split(abc, b)", "[a, c]"), ("string.split(\"a b\", \" \", 0)", "error"), ("string.split(\"a b\", \" \", 1.5)", "error"),
+    ("string.split(\"a b\", 1)", "error"), ("string.split(\"\", \"\")", "[]"), ("string.split(ab, \"\")", "[a, b]"),
     ("append((a, b), c)", "a, b, c"), ("append(a b, c, comma)", "a, b, c"), ("join((a, b), (c d))", "a, b, c, d"), ("join((), (), comma)", "()"),
 ]
 ALIAS = {"map.get(": "map-get(", "map.has-key(": "map-has-key(", "map.merge(": "map-merge(", "map.keys(": "map-keys(", "map.values(": "map-values("}
@@ -67,7 +69,7 @@ def run(ctx):
     thorough = ctx.tier == "thorough"
     # ---- lists
     for use_module in ("FALSE", "TRUE"):
-        r = C.tlc("MC_Lists", cfg_text=LISTS_CFG % (3 if thorough and use_module == "FALSE" else 2, use_module), workers=8, timeout=3000, metaname="lists" + use_module)
+        r = C.tlc("MC_Lists", cfg_text=LISTS_CFG % (2, use_module), workers=8, timeout=3000, metaname="lists" + use_module)
         C.tlc_must_pass(r, "MC_Lists")
         ctx.add_tlc(r)
         cases = r.cases
@@ -128,14 +130,17 @@ def run(ctx):
              "slice": ("string.slice" if mod else "str-slice") + "(\"%s\", %d, %d)" % (s, c["p1"], c["p2"]),
              "slice1": ("string.slice" if mod else "str-slice") + "(\"%s\", %d)" % (s, c["p1"]),
              "index": ("string.index" if mod else "str-index") + "(\"%s\", \"%s\")" % (s, txt(c["sub"])),
-             "insert": ("string.insert" if mod else "str-insert") + "(\"%s\", \"Z\", %d)" % (s, c["p1"])}[c["fn"]]
+             "insert": ("string.insert" if mod else "str-insert") + "(\"%s\", \"Z\", %d)" % (s, c["p1"]),
+             "split": "string.split(\"%s\", \"%s\"%s)" % (s, txt(c["sub"]), (", %d" % c["p2"]) if c["p2"] else "")}[c["fn"]]
         jobs.append({"id": i, "src": "@use \"sass:string\";\nx { v: inspect(%s); }\n" % f})
     res = C.run_cases(jobs, PID + "-str")
     for c, j, x in zip(cases, jobs, res):
         ctx.count(["str", c["s"], c["fn"], c["p1"], c["p2"]])
         ctx.validated += 1
         rs = c["result"]
-        if rs["k"] == "int":
+        if rs["k"] == "list":
+            want = "[" + ", ".join("\"%s\"" % txt(p_) for p_ in rs["v"]) + ("," if len(rs["v"]) == 1 else "") + "]"
+        elif rs["k"] == "int":
             want = "null" if (c["fn"] == "index" and rs["v"] == 0) else str(rs["v"])
         else:
             want = "\"%s\"" % txt(rs["v"])
@@ -150,7 +155,7 @@ def run(ctx):
         for k, v in ALIAS.items():
             if e.startswith(k) and e.count(",") <= 1 and "deep" not in e:
                 tjobs.append((v + e[len(k):], want))
-    res = C.run_cases([{"id": i, "src": "@use \"sass:map\";\nx { v: inspect(%s); }\n" % e} for i, (e, w) in enumerate(tjobs)], PID + "-tab")
+    res = C.run_cases([{"id": i, "src": "@use \"sass:map\";\n@use \"sass:string\";\nx { v: inspect(%s); }\n" % e} for i, (e, w) in enumerate(tjobs)], PID + "-tab")
     for (e, want), x in zip(tjobs, res):
         ctx.count(["table", e])
         ctx.validated += 1
